@@ -317,4 +317,10 @@ theorem scaleProps_layers (kb bigG mass r : ℝ) (T pl mu : List ℝ) :
     (scaleProps kb bigG mass r T pl mu).g = layers.map (·.g) ∧
     (scaleProps kb bigG mass r T pl mu).dz = layers.map (·.dz) := ⟨rfl, rfl, rfl⟩
 
+/-! ### length units -/
+
+theorem metresPer_pos (u : String) (s : ℝ) (h : metresPer u = some s) : 0 < s := by
+  unfold metresPer at h
+  split at h <;> first | (cases h; norm_num) | cases h
+
 end Taurex.Structure
